@@ -26,6 +26,8 @@ def run(rep):
                                   ModeSet={"periodization"}, EmitGrad=True)
     orthochecks.one_level_exact(rep, fnd, table, "C17")
     orthochecks.numeric(rep, fnd, "C17", rep.tier)
+    from .. import scalechecks
+    scalechecks.orthogonal(rep, "C17", rep.tier)          # large inputs (size thresholds)
     rep.assumptions += ["orthogonality is formal in the taps: it needs only the premise SUM h[i]h[i+2t] = [t=0], checked per wavelet",
                         "admissible region as stated by the property: every level's input even and >= L"]
 
